@@ -38,7 +38,9 @@ RULE = (
     "2.5, never}; T in {0, 0.3, 2.2, 5, None} x retry_interval in {inf, 0.7} x subjects {StreamEndpoint copy/buffered, "
     "TCPNetworkClient, UDPNetworkClient (one datagram), ClientRecvIterator, AsyncClientRecvIterator}, max_recv_size 64 and 1/2 (reads that fill the buffer exactly); spurious readable events as "
     "costed deviations (bound 2); schedules with an arrival within 1 ms of a deadline are skipped and counted (ties are "
-    "unspecified); distinct_nontrivial = distinct (subject, T, retry, arrival schedule, outcome, number of waits)"
+    "unspecified); blocking SEND paths (send_all, send_all_from_iterable via sendmsg / fallbacks, StreamEndpoint.send_packet): chunk sequences {(5,5),(1,0,0),(2,5)} "
+    "(thorough + (5,5,5),(7,1,2)) with every partial-write / EAGAIN / unblock-delay answer (C04's explicit-state harness), T in {3.0, 0} x retry_interval {1.0, inf}, judged for time only; "
+    "distinct_nontrivial = distinct (subject, T, retry, arrival schedule, outcome, number of waits)"
 )
 ASSUMPTIONS = [
     "processing costs 0 virtual seconds: 'at most T of waiting in total' is checked as exact equality of the virtual elapsed time",
